@@ -71,6 +71,10 @@ Theorem C50_model_twin_ok : forall sch un pw1 pw2 h r u p1 p2 post,
   twin_ok (mk l1 (Some post) (strip_rest l1 (Some post)) true (Some (l2, strip_rest l2 (Some post))) None) = true.
 Proof. exact model_twin_ok. Qed.
 
+(* F-C50-1 (genuine defect): the panic-freedom does NOT extend to strings without a colon: "rest" panics *)
+Theorem C50_no_panic_refuted : exists loc post, strip_location loc post = RPanic.
+Proof. exact no_panic_refuted. Qed.
+
 Print Assumptions C50_replace_hits_userinfo.
 Print Assumptions C50_escaped_userinfo_has_no_at.
 Print Assumptions C50_strip_rest_shape.
@@ -80,3 +84,4 @@ Print Assumptions C50_noninterference.
 Print Assumptions C50_no_panic_with_colon.
 Print Assumptions C50_oracle_sound.
 Print Assumptions C50_model_twin_ok.
+Print Assumptions C50_no_panic_refuted.
